@@ -381,7 +381,7 @@ func (f *Frame) applyContractEnv(con *Contract, names []string, args []Val, sig 
 			}
 		}
 		if shared || len(cprops) == 0 || con.Extern {
-			e.addObl("pre", siteKey+":"+clauseLabel(c, i), f.curReach, t, pos, c.Src, f.props())
+			e.addObl("pre", siteKey+":"+clauseLabel(c, i), f.curReach, t, pos, c.Src, clauseProps(c, f.props()))
 		} else {
 			e.note(fmt.Sprintf("precondition of %s (%s) is assumed at the call: it belongs to %v, which this function's contract does not claim", disp, c.Src, cprops))
 		}
